@@ -186,7 +186,7 @@ Print Assumptions interp_text_untouched.
 (* ---------------- print / println ---------------- *)
 
 Theorem println_single_spaces : forall e nl args vs, 2 <= List.length args -> find_fmt args = None ->
-  Forall2 (fun a v => print_value e a = inl v) args vs ->
+  Forall2 (fun a v => print_argument e a = inl v) args vs ->
   stmt_out e (SPrint nl args) = inl (join_sp vs ++ (if nl then ["010"] else [])).
 Proof. exact println_single_spaces_l. Qed.
 Print Assumptions println_single_spaces.
@@ -198,28 +198,49 @@ Print Assumptions println_values.
 
 Theorem println_format_path : forall e nl pre f post vs fa out,
   find_fmt (pre ++ AQuoted f :: post) = Some (pre, f, post) -> 2 <= List.length (pre ++ AQuoted f :: post) ->
-  Forall2 (fun a v => print_value e a = inl v) pre vs ->
+  Forall2 (fun a v => print_argument e a = inl v) pre vs ->
   collect e post = inl fa -> render f fa = Some out ->
   stmt_out e (SPrint nl (pre ++ AQuoted f :: post)) =
   inl (List.concat (map (fun v => v ++ [" "]) vs) ++ cstr out ++ (if nl then ["010"] else [])).
 Proof. exact println_format_path_l. Qed.
 Print Assumptions println_format_path.
 
-(* escapes of a string literal are processed when it is the only argument, not when it is one of several
-   (known finding C16-multiarg-escape) *)
-Theorem println_escapes_uniform_refuted :
-  exists s, stmt_out [] (SPrint true [AQuoted s]) = inl (["a"; "009"; "b"; "010"]) /\
-            stmt_out [] (SPrint true [AQuoted s; AInt 1]) = inl (s2l "a\tb 1" ++ ["010"]).
-Proof. exists (s2l "a\tb"). vm_compute. split; reflexivity. Qed.
-Print Assumptions println_escapes_uniform_refuted.
+(* a plain string literal prints its escape-processed text, whether it is the only argument or one of several
+   (former finding C16-multiarg-escape, repaired by /repo commit 033c981) *)
+Theorem println_escapes_uniform : forall e nl s rest vs, has_interpolation s = false -> rest <> [] ->
+  find_fmt (AQuoted s :: rest) = None ->
+  Forall2 (fun a v => print_argument e a = inl v) rest vs ->
+  stmt_out e (SPrint nl [AQuoted s]) = inl (cstr (process_escape s) ++ (if nl then ["010"] else [])) /\
+  stmt_out e (SPrint nl (AQuoted s :: rest)) =
+    inl (join_sp (cstr (process_escape s) :: vs) ++ (if nl then ["010"] else [])).
+Proof. exact println_literal_uniform_l. Qed.
+Print Assumptions println_escapes_uniform.
 
-(* an escaped backslash directly before a directive hides the directive
-   (known finding C16-backslash-before-percent) *)
-Theorem escaped_backslash_then_directive_refuted :
-  exists f, has_fmt f = false /\
-            stmt_out [] (SPrint true [AQuoted f; AInt 5]) = inl (s2l "a\\%d| 5" ++ ["010"]).
-Proof. exists (s2l "a\\%d|"). vm_compute. split; reflexivity. Qed.
-Print Assumptions escaped_backslash_then_directive_refuted.
+(* the former witness *)
+Example ex_multiarg_escape :
+  stmt_out [] (SPrint true [AQuoted (s2l "a\tb"); AInt 1]) = inl (["a"; "009"; "b"; " "; "1"; "010"]).
+Proof. vm_compute. reflexivity. Qed.
+
+(* only an odd run of backslashes hides a directive: after k escaped backslashes %d is a directive, after
+   k escaped backslashes and one more backslash it is not (former finding C16-backslash-before-percent,
+   repaired by /repo commit 475de81) *)
+Theorem backslash_parity_decides_directive : forall t k rest, no_meta t ->
+  has_fmt (t ++ bs_pairs k ++ "%" :: "d" :: rest) = true /\
+  has_fmt (t ++ bs_pairs k ++ "\" :: "%" :: "d" :: rest) = has_fmt rest.
+Proof. exact backslash_parity_l. Qed.
+Print Assumptions backslash_parity_decides_directive.
+
+(* "\\%[-][0][w]d" renders as one backslash followed by what C printf prints for the directive *)
+Theorem escaped_backslash_then_directive : forall c minus zero w a, int_conv_char c ->
+  render ("\" :: "\" :: directive minus zero w c) [a] =
+  Some ("\" :: pad_num minus zero w (fst (int_body c (farg_int a))) (snd (int_body c (farg_int a)))).
+Proof. intros. apply render_escaped_backslash_directive. assumption. Qed.
+Print Assumptions escaped_backslash_then_directive.
+
+(* the former witness *)
+Example ex_backslash_directive :
+  stmt_out [] (SPrint true [AQuoted (s2l "a\\%d|"); AInt 5]) = inl (s2l "a\5|" ++ ["010"]).
+Proof. vm_compute. reflexivity. Qed.
 
 (* ---------------- order of output ---------------- *)
 
